@@ -42,6 +42,17 @@ def run_c07(tier, seed, build):
     summaries = []
     status = 0
     lines = []
+    # fixed programs over zero-sized / byte / over-aligned / String payloads, in their own process
+    lp = subprocess.run([exe, "replay", "--program", "layout-programs"], cwd=VERIF, env=env, stdout=subprocess.PIPE, stderr=subprocess.PIPE, text=True)
+    layout_violation = lp.returncode != 0
+    if layout_violation:
+        os.makedirs(REPLAYS, exist_ok=True)
+        path = os.path.join(REPLAYS, "C07-layout-programs.json")
+        with open(path, "w") as f:
+            json.dump({"property": "C07", "engine": "diffrc", "program": "layout-programs", "observed": (lp.stdout + lp.stderr)[-1500:]}, f, indent=1)
+        lines.append(f"VIOLATION property=C07 replay={path}")
+        lines.append("  the fixed programs over zero-sized / byte-sized / 64-byte-aligned / String payloads behave differently on cactusref than on std::rc (or crash): " + (lp.stdout.strip().splitlines()[-1] if lp.stdout.strip() else f"exit {lp.returncode}")[:200])
+        status = 1
     for i, b in enumerate(bounds):
         out = os.path.join(TMP, f"c07-{i}-{os.getpid()}.json")
         cmd = [exe, "explore", "--out", out, "--threads", str(os.cpu_count() or 8), "--max-secs", "1500", "--max-states", "4000000"] + b
@@ -114,8 +125,9 @@ def run_c07(tier, seed, build):
             "bounds as listed; AddressSanitizer build, a crash of either implementation is re-run single-threaded and attributed to the program",
         ],
         "wall_s": round(time.time() - t0, 2),
-        "violations": sum(s["disagreements"] for s in summaries),
+        "violations": sum(s["disagreements"] for s in summaries) + int(layout_violation),
     }
+    ev["coverage"]["fixed_layout_programs"] = "5 constructors x 4 payload types (zero-sized, u8, #[repr(align(64))], String), 29 observations each, run in a separate process; agree=" + str(not layout_violation)
     write_evidence("C07", ev)
     print(f"C07 [{tier}] states={states} programs={programs} (each run on std and on cactusref) disagreements={ev['violations']} wall={ev['wall_s']}s")
     for l in lines:
